@@ -203,7 +203,7 @@ def check_recorder(model, rep):
 
 def check(model, rep):
     from checks.solver_common import absorb_arith, TIME_ARITH, EULER_ARITH, KIN_ARITH, TORQUE_ARITH
-    absorb_arith(model, rep, 'C02.dep.arith', TORQUE_ARITH)
+    absorb_arith(model, rep, 'C02.dep.arith', TORQUE_ARITH, solver_log=True)
     rep.explain('C02: on the solver IR (event structure over E[0..n-1]) every instant context must contain: the motor '
                 'characteristic on E[0] followed by the driving-torque loop with term E[i-1].driving * E[i].efficiency * '
                 'E[i].ratio over E[1..n-1]; the load loop with the user function called with time=time[-1] and the same '
